@@ -8,7 +8,11 @@ SPEC = {
         Suite(name="chartcfg", harness="vh_chartcfg", runner="chartcfg",
               model_deps=["theories/Model/ChartCfg.vo", "theories/Model/ConfigGen.vo"],
               quick_n=40000, thorough_n=300000,
-              rule="cases: key table by reflection (1); 25 valid record sets with ONE physical line of 65535, 65536, 65537, "
+              rule="cases: sessions (30 + n/400): 2-3 generate() calls in ONE child process through the REAL listProxyVersions path "
+                   "(no versionsForTesting hook; a fake `go` first on PATH answers `go list -m --versions` from the session's "
+                   "mirror table), 1-2 modules each shared by 2-3 programs with different minimum versions, records of the "
+                   "programs in varying order, same records with other paddings as main() does, each call compared with the "
+                   "model on the mirror table and checked for duplicates / wanted versions; key table by reflection (1); 25 valid record sets with ONE physical line of 65535, 65536, 65537, "
                    "65538..95537 and one of 4095..65534 bytes, in each of five shapes (long plain value, bucket list on one line, "
                    "long comment after a value, long comment line, one long bucket in a one-per-line list); record sets rendered by the harness's own renderer, compared byte for "
                    "byte with the model's render, parsed by the real chartconfig.Parse (40%: 0-6 records, every field "
@@ -47,7 +51,9 @@ SPEC = {
                   "set with what was fed. GOOS/GOARCH/SampleRate of the configuration and main()'s write/contains logic "
                   "are outside the property. Error order when several programs fail is map-order dependent in Go and "
                   "not compared beyond ok/error/panic. The test hook versionsForTesting is filtered in place by "
-                  "generate, so the harness gives every module program its own module path. Trusted: Coq kernel+VM, "
+                  "generate, so in the hook-based gen cases the harness gives every module program its own module path; "
+                  "shared modules and repeated calls go through the real `go list` path (sgen cases), where each call gets a "
+                  "fresh list. Trusted: Coq kernel+VM, "
                   "extraction, OCaml glue (incl. the oracle tables), Go harness and its generators.",
     "assumptions": [
         "strconv.ParseFloat / FormatFloat: answers supplied per case by the harness (oracle table); theorem premise float_ok",
